@@ -255,10 +255,9 @@ def split_brain(src, n=2, max_len=8, configs=('LIST+TIMEOUT', 'CORE'), fences=(F
     from harness import cluster_common as CC
 
     plan_fn = CC.split_brain_plan(n, max_len)
-    cl, cfg, plan, senders, traces = CC.run_schedule(src, n=n, rounds=4 + max_len, closing=12, configs=configs,
+    cl, cfg, plan, senders, traces = CC.run_schedule(src, n=n, rounds=max(CC.SPLIT_STARTS) + 1 + max_len, closing=12, configs=configs,
                                                      fences=fences, plan_fn=plan_fn)
-    length = plan[1][0] - plan[0][0]
-    _converged(src, cl, plan, senders, sig=f'partition-of-{length}-rounds-then-heal')
+    _converged(src, cl, plan, senders, sig=CC.separation_length(plan) + '-then-heal')
     if len({c.state_modes.master_identifier for c in cl.live()}) == 1 and len(CC.groups(cl)) == 1:
         src.reach('reunited')
 
